@@ -1,11 +1,11 @@
 // C14 — graph and object-association views stay consistent with a reference model
 // VF-VARIANT: san
-// VF-RULE: E1 breadth-first search, de-duplicated on the canonical state (every private field of GlobalGraph / AssociationGraphImplObserver, addresses renamed, plus the reference), over all histories of public operations with every argument from a small universe, including absent ids/objects. Each transition runs operation + full audit in a forked child (a crash is a finding of that history). A transition is non-trivial when it changed the canonical state.
+// VF-RULE: E1 breadth-first search, de-duplicated on the canonical state (every private field of GlobalGraph / AssociationGraphImplObserver, addresses renamed, plus the reference), over all histories of public operations with every argument from a small universe, including absent ids/objects. A crash / sanitizer report / hang is a finding of the history that was running (recovered from a per-worker black box). A transition is non-trivial when it changed the canonical state.
 // VF-BOUND: GlobalGraph alone: <= 4 (quick) / 5 (thorough) node ids and <= 6 / 8 edge ids ever created, directed and undirected, closed state graph (histories of any length within the id budget). Observer: 3 node + 2 edge objects (+ "no edge object"), <= 4 node ids and <= 4 edge ids, depth-bounded; association/index alphabet on 2+2 objects, indices 0..2. Replaces "length <= 6 over <= 4 nodes exhaustively" (contained) and "random length 40 over 8 nodes" (not run: nothing is sampled).
 // VF-LEVEL: bounded-exhaustive differential check of the real code against an independent reference multigraph + association maps: every reachable state within the bound is audited (cross-view invariants on private state, state = reference, every query and iterator = reference, must-raise operations raise bpp::Exception and leave every private field unchanged, copies own distinct objects with isomorphic relations)
 // VF-ASSUME: the reference model in harness/C14_model.hpp and C14.cpp is right;; sequential library, no hidden global state (checked by the determinism gate);; protected GlobalGraph::link/unlink/switchNodes/setRoot are reached only through public callers;; self-loops, orientate(), isTree/isDA, getLeavesFromNode, getAllInnerNodes, observer operator= and outputToDot are outside the check
-// VF-TECHNIQUE: explicit-state BFS over operation histories with a reference model (differential), fork-isolated transitions under ASan/UBSan
-// VF-BUDGET_QUICK: 170
+// VF-TECHNIQUE: explicit-state BFS over operation histories with a reference model (differential), real code under ASan/UBSan + libstdc++ assertions
+// VF-BUDGET_QUICK: 400
 // VF-BUDGET_THOROUGH: 1500
 #include "vf.hpp"
 #include "C14_probe.hpp"
@@ -36,11 +36,9 @@ struct GSys : vf::SysBase {
   enum K { CREATE, FROMNODE, ONEDGE, FROMEDGE, DELNODE, MKDIR, MKUNDIR, ITER_ABSENT, COPY };
   struct Op { K k; U a; };
   int NN, EE; bool dir0;
-  std::vector<Op> ops; std::vector<int> hist;
+  std::vector<Op> ops; int depth = 0;
   std::unique_ptr<GlobalGraph> g; GModel m;
   std::string part() const { return m.directed ? "graph:dir" : "graph:undir"; }   // mode of the current state
-  std::string key() const { return std::string("G") + (dir0 ? "d" : "u") + str(NN) + "," + str(EE); }
-  std::unique_ptr<GSys> fresh() const { return std::unique_ptr<GSys>(new GSys(dir0, NN, EE)); }
   GSys(bool directed, int nn, int ee) : NN(nn), EE(ee), dir0(directed), g(new GlobalGraph(directed)) {
     m.directed = directed;
     ops.push_back({CREATE, 0});
@@ -89,7 +87,8 @@ struct GSys : vf::SysBase {
     const Op o = ops[i];
     StepCtx k{s, part(), opclass(o), ""};
     Expect ex = expect(o);
-    std::string before = audit ? dumpImpl() : std::string();
+    std::string before = audit ? dumpImpl() : std::string(), beforeRef = audit ? m.proj() : std::string();
+    bool first = depth == 0; ++depth;
     if (audit) k.ctx = "state [" + gproj(*g) + "] then " + opname(i);
     if (o.k == COPY) { if (audit) copyCheck(k); return; }
     Outcome out = RETURNED; std::string what; U ret = 0; bool hasRet = false;
@@ -144,6 +143,9 @@ struct GSys : vf::SysBase {
     std::string inv = ginvariant(*g);
     if (!inv.empty()) { sfail(k, "views-disagree:" + inv.substr(0, inv.find(':')), inv, true); return; }
     if (gproj(*g) != m.proj()) { sfail(k, "state-differs-from-reference", "implementation [" + gproj(*g) + "] reference [" + m.proj() + "]", true); return; }
+    // the query audit is a function of the state: it runs on every transition that enters a state (and on the first step for the initial state)
+    if (!first && after == before && m.proj() == beforeRef) return;
+    s.tag("state-audited");
     Q q{s, part(), "state [" + gproj(*g) + "]"};
     auditGraphQueries(*g, m, q);
   }
@@ -165,22 +167,20 @@ struct GSys : vf::SysBase {
   void apply(int i, vf::Case& c);
 };
 
-// shared by both systems: muted = plain step; otherwise step+audit in the helper process, then the plain step here
-template<class S> void applyRemote(S& sys, int i, vf::Case& c) {
-  if (c.muted) { Sink q; q.quiet = true; sys.step(i, q, false); sys.hist.push_back(i); return; }
+// shared by both systems: muted = plain step; otherwise audited step, bracketed by the black-box record (see C14_probe.hpp)
+template<class S> void applyLocal(S& sys, int i, vf::Case& c) {
+  if (c.muted) { Sink q; q.quiet = true; sys.step(i, q, false); return; }
   std::string site = sys.part() + " " + sys.opclass(sys.ops[i]);
   c.site(site.c_str());
-  ProbeResult r = remoteStep(sys, i, 20);
-  if (r.how == 2) { c.fail("hang|" + site, "history ending in " + sys.opname(i) + ": the step did not return within 20 s"); return; }
-  if (r.how == 1) { c.fail("crash|" + site + "|" + r.kind, "history ending in " + sys.opname(i) + ": process died (" + r.kind + "); frames: " + r.frames + " | " + r.errtail); c.tag("out:crashed"); return; }
-  for (auto& f : r.sink.fails) c.fail(f.first, f.second);
-  for (auto& t : r.sink.tags) c.tag(t);
-  if (r.sink.nontrivial) c.nontrivial();
-  if (r.sink.diverged) return;
-  Sink q; q.quiet = true; sys.step(i, q, false); sys.hist.push_back(i);
-  c.failed = false;  // query-level findings do not corrupt the state: keep exploring behind them
+  blackBox().begin(c.slot ? str((unsigned long long)c.slot->cur) : std::string("?"), site, c.witness);
+  Sink s; sys.step(i, s, true);
+  blackBox().end();
+  for (auto& f : s.fails) c.fail(f.first, f.second);
+  for (auto& t : s.tags) c.tag(t);
+  if (s.nontrivial) c.nontrivial();
+  if (!s.diverged) c.failed = false;  // query-level findings do not corrupt the state: keep exploring behind them
 }
-void GSys::apply(int i, vf::Case& c) { applyRemote(*this, i, c); }
+void GSys::apply(int i, vf::Case& c) { applyLocal(*this, i, c); }
 
 #include "C14_obs.hpp"
 
@@ -189,11 +189,15 @@ void GSys::apply(int i, vf::Case& c) { applyRemote(*this, i, c); }
 int main(int argc, char** argv) {
   vf::Runner R(argc, argv, "C14");
   bool th = R.thorough();
-  const double CT = 120.0;
+  const double CT = 20.0;
+  bbDir() = R.tmpdir;
   for (int d = 1; d >= 0; --d) {
     int nn = th ? 5 : 4, ee = th ? 8 : 6;
+    if (getenv("C14_ONLY") && !strstr(getenv("C14_ONLY"), "graph")) continue;
     GSys proto(d, nn, ee);
-    R.explore(std::string("graph:") + (d ? "dir" : "undir") + ":n" + str(nn) + ":e" + str(ee), 64, proto.nops(), [=] { return std::unique_ptr<GSys>(new GSys(d, nn, ee)); }, CT);
+    std::string name = std::string("graph:") + (d ? "dir" : "undir") + ":n" + str(nn) + ":e" + str(ee);
+    R.explore(name, 64, proto.nops(), [=] { return std::unique_ptr<GSys>(new GSys(d, nn, ee)); }, CT);
+    recoverWitnesses(R, name);
   }
   obsSpaces(R, th, CT);
   R.expectSeen("exp:must-raise"); R.expectSeen("exp:must-succeed"); R.expectSeen("out:raised-bpp"); R.expectSeen("out:returned"); R.expectSeen("query-raised-bpp");
@@ -205,7 +209,7 @@ int main(int argc, char** argv) {
   R.note("dissociateNode/Edge keep the object's index (as coded); deleting a node or edge must forget graph id and index of its object in every map");
   R.note("a std::exception that is not a bpp::Exception on a must-raise call is reported under its own signature class raised-non-bpp-exception");
   R.note("copies of an observer share the subject graph by construction (shared_ptr); they are checked at copy time and destroyed, later edits of the source are not replayed against a living copy");
-  R.note("signatures carry the mode (dir/undir): a mode-independent defect therefore appears under two signatures");
-  R.note("engine work-around: transitions are fork-isolated inside the harness (C14_probe.hpp) because the engine records a dying E1 worker with a non-replayable witness");
+  R.note("graph-layer signatures carry the mode of the state (graph:dir / graph:undir): a mode-independent graph defect appears under two signatures; observer-layer signatures (obs|...) carry no mode because that layer has no mode-dependent code");
+  R.note("engine work-around: the engine records a dying E1 worker with the level-local case index as witness; the harness keeps a per-worker black-box record of the running history and puts it into such violations after each explore() (C14_probe.hpp)");
   return R.finish();
 }
